@@ -198,6 +198,26 @@ def check_directed_zones(ctx, tz):
             ctx.violation('subminute-offsets', {'zone': 'Solar/West', 'utc': u.isoformat()}, 'got %r, the definition says %r' % (got[:3], exp))
 
 
+def check_single_component(ctx, tz):
+    """a definition with one observance is a fixed-offset zone at every instant"""
+    for off, name, extra in ((19800, 'IST', ''), (-12600, 'NST', 'RRULE:FREQ=YEARLY;BYMONTH=1;BYMONTHDAY=1\n'), (3600, 'CET', 'RDATE:19800101T000000\n')):
+        for kind in ('STANDARD', 'DAYLIGHT'):
+            text = ('BEGIN:VTIMEZONE\nTZID:Single\nBEGIN:%s\nDTSTART:19700101T000000\n%sTZOFFSETFROM:%s\nTZOFFSETTO:%s\nTZNAME:%s\nEND:%s\nEND:VTIMEZONE\n'
+                    % (kind, extra, tzzoo.fmt_ical_offset(off), tzzoo.fmt_ical_offset(off), name, kind))
+            case = {'zone': 'single-' + kind + '-' + name}
+            try:
+                z = tz.tzical(io.StringIO(text)).get()
+                for u in (D.datetime(1950, 1, 1), D.datetime(1970, 1, 1), D.datetime(1999, 6, 30, 23, 59, 59), D.datetime(2030, 12, 31)):
+                    ctx.ev()
+                    ctx.count('single_component_probes')
+                    ctx.distinct('single|%s|%s|%d' % (kind, name, u.year))
+                    got = answers_at(z, u, tz.UTC)
+                    if got[0] != off or got[1] != off or got[2] != name:
+                        ctx.violation('single-component-zone', dict(case, utc=u.isoformat()), 'got %r, the definition says offset %d %r' % (got[:3], off, name))
+            except Exception as e:
+                ctx.violation('conversion-raised', case, '%s: %s' % (type(e).__name__, e))
+
+
 MALFORMED = {
     'missing-tzid': 'BEGIN:VTIMEZONE\nBEGIN:STANDARD\nDTSTART:20001029T020000\nTZOFFSETFROM:-0400\nTZOFFSETTO:-0500\nEND:STANDARD\nEND:VTIMEZONE\n',
     'missing-dtstart': 'BEGIN:VTIMEZONE\nTZID:X\nBEGIN:STANDARD\nTZOFFSETFROM:-0400\nTZOFFSETTO:-0500\nEND:STANDARD\nEND:VTIMEZONE\n',
@@ -410,6 +430,7 @@ def run(ctx):
         check_malformed(ctx, tz)
         check_addressing(ctx, tz, rng)
         check_directed_zones(ctx, tz)
+        check_single_component(ctx, tz)
         check_required_lines(ctx, tz)
         check_fold_positions(ctx, tz)
         pz = PZ.PosixZone('EST', -18000, 'EDT', -14400, ('M', 3, 2, 0), 7200, ('M', 11, 1, 0), 7200)
